@@ -48,6 +48,7 @@ def rules(ctx):
     c199(ctx)
     c1910(ctx)
     c1911(ctx)
+    c1912(ctx)
 
 
 def c199(ctx):
@@ -210,6 +211,72 @@ def c1911(ctx):
             ctx.check(R, f, "membership-by-equality", exact, "a searched position is answered only if the element there equals the character",
                       "Sigma::char_to_sigma answers Some(position) from a search of the sorted table without comparing the element found with the character: "
                       "an absent character smaller than the largest one gets the symbol of its successor", pt=p_)
+
+
+def _next_none_edge(f, b, lab):
+    """edge (b, lab) is the None arm of a switch on the result of an Iterator::next call"""
+    if lab != "sw:0" or f.blocks[b].term["t"] != "switch":
+        return False
+    d = f.blocks[b].term["discr"]
+    if d.get("k") not in ("copy", "move"):
+        return False
+    for (_p, kind, p_) in P.defs(f).of(d["pl"]["l"]):
+        if kind == "assign" and p_["rv"]["r"] == "discr":
+            if any(s_["k"] == "call" and re.search(r"Iterator>::next$|Iterator::next$", s_["callee"])
+                   for s_ in P.origins(f, {"k": "copy", "pl": {"l": p_["rv"]["pl"]["l"], "p": []}})):
+                return True
+    return False
+
+
+def c1912(ctx):
+    R = "C19.12"
+    ctx.declare(R, "locate walks psi from an index to the nearest sampled suffix-array entry.  If that walk is bounded (it gives up with an error "
+                   "after some number of steps) the bound is only right when the sample set is complete: the scans that pick the samples in "
+                   "SampledSuffixArray::construct / construct_u32 must then run to the end of the suffix array.  A scan that stops early under a "
+                   "bounded walk turns `one more sample away` into InvalidSuffixArray for patterns the text contains")
+    look = ctx.fn(R, "<scrunch::sa::SampledSuffixArray as scrunch::sa::SuffixArray>::lookup")
+    if not look:
+        return
+    psi = [p_ for p_ in P.call_points(look, r"Psi>::lookup$|psi::Psi::lookup$|::lookup$") if "Psi" in (P.term_at(look, p_).get("trait") or P.term_at(look, p_).get("decl") or P.term_at(look, p_).get("callee") or "")]
+    ctx.floor(R, "psi steps in SampledSuffixArray::lookup", len(psi), 1)
+    bounded = []
+    for p_ in psi:
+        body = K.loop_body(look, p_[0])
+        ctx.check(R, look, "walk-is-a-loop", bool(body), "the psi step sits in a loop", "the psi step of SampledSuffixArray::lookup is no longer in a loop: "
+                  "an index more than one step from a sample is never located", pt=p_)
+        for (b, lab, s_) in K.loop_exits(look, p_[0]):
+            # the exits of today's walk: return Ok (sentinel / sample) and the `?` of the psi step.  An exit that ends in an error without
+            # being the psi step's own error, or the exhaustion of a counting iterator, is a bound on the walk.
+            if _next_none_edge(look, b, lab):
+                bounded.append((b, lab))
+                continue
+            errs = set(P.error_points(look))
+            to_err = P.reach(look, [(s_, 0)], errs) is not None
+            to_ok = P.reach(look, [(s_, 0)], P.ok_points(look), avoid=errs) is not None
+            if to_err and not to_ok:
+                # is it the psi step's own `?` ?
+                via_q = any(s2["k"] == "call" and s2.get("pt") in psi for s2 in K.cond_sources(look, b)) if look.blocks[b].term["t"] == "switch" else False
+                if not via_q:
+                    bounded.append((b, lab))
+    scans = [f for f in ctx.prog.fns.values() if f.crate == "scrunch" and re.search(r"<scrunch::sa::SampledSuffixArray as scrunch::sa::SuffixArray>::construct(_u32)?$", f.skey)]
+    ctx.floor(R, "SampledSuffixArray sample scans", len(scans), 2)
+    for f in scans:
+        heads = [p_ for p_ in P.call_points(f, r"Iterator>::next$|Iterator::next$") if K.loop_body(f, p_[0])]
+        ctx.floor(R, "%s: sample loop" % f.name, len(heads), 1)
+        for h_ in heads:
+            early = []
+            for (b, lab, s_) in K.loop_exits(f, h_[0]):
+                if _next_none_edge(f, b, lab):
+                    continue
+                errs = set(P.error_points(f))
+                if P.reach(f, [(s_, 0)], P.ok_points(f), avoid=errs) is not None:
+                    early.append((b, lab))
+            ctx.check(R, f, "complete-samples-under-bounded-walk", not (early and bounded),
+                      "the sample scan runs to the end of the suffix array (%d early exits), the walk has %d bounding exits" % (len(early), len(bounded)),
+                      "the sample scan can stop before the end of the suffix array (exit from bb%s) while SampledSuffixArray::lookup gives up after a "
+                      "bounded number of psi steps: when the sentinel SA[0] = n is itself a multiple of the stride it takes the place of the last real "
+                      "sample, and every occurrence in the block before it is answered with InvalidSuffixArray"
+                      % ",".join(str(b) for b, _l in early), pt=h_)
 
 
 def builder_params(f):
